@@ -736,6 +736,8 @@ class StateWorld(Run):
         qubits = rng.sample(range(self.n), k)
         if rng.random() < 0.5:
             qubits = sorted(qubits)
+        if rng.random() < 0.15:
+            qubits.insert(rng.randrange(len(qubits) + 1), rng.choice(qubits))   # a qubit read twice
         op = {"op": "mlayer", "slot": name, "qubits": qubits}
         obs = [(tuple(3 if i == q else 0 for i in range(self.n)), 0) for q in qubits]
         self._fault_coins(rng, op, self._count_undetermined(self.model[name], obs))
@@ -748,6 +750,9 @@ class StateWorld(Run):
             qs = rng.sample(range(self.n), k)
             if rng.random() < 0.6:
                 qs = sorted(qs)
+            if rng.random() < 0.15:
+                # a qubit read twice in one layer: the second reading repeats the first
+                qs.insert(rng.randrange(len(qs) + 1), rng.choice(qs))
             return {"meas": qs}
         return {"gate": self._gate_spec(rng, allow_random=allow_random, nmax=3)}
 
